@@ -102,6 +102,7 @@ struct FamStats {
     scenarios_capped: usize,
     scenarios_skipped: usize,
     executions: u64,
+    replay_retries: u64,
     max_choice_points: usize,
     distinct: usize,
     nontrivial_scenarios: usize,
@@ -366,6 +367,7 @@ pub fn run_families(property: &str, tier: &str, fams: Vec<Family>, budget_s: f64
                             let mut g = stats.lock().unwrap();
                             g.scenarios_done += 1;
                             g.executions += st.executions;
+                            g.replay_retries += st.replay_retries;
                             g.max_choice_points = g.max_choice_points.max(st.max_choice_points);
                             g.distinct += outcomes.len();
                             if handler_execs && st.executions > 1 {
@@ -437,11 +439,42 @@ pub fn run_families(property: &str, tier: &str, fams: Vec<Family>, budget_s: f64
                                     });
                                 }
                                 None => {
+                                    // Last resort: the executions of this schedule differ from run to run
+                                    // (the behaviour of the code under test depends on something the
+                                    // schedule does not fix, e.g. memory addresses). Each replay is a real
+                                    // execution judged by the oracle: the violation stands if it shows
+                                    // again, with the same tag, in at least two of six further replays.
+                                    let mut hits: Vec<(RunOut, Vec<Viol>)> = vec![];
+                                    for _ in 0..6 {
+                                        let o = run_once(sc, &choices, true);
+                                        let a = analyze(sc, &o);
+                                        let vv = selected(fam, sc, &o, &a);
+                                        if vv.iter().any(|x| x.tag == v[0].tag) {
+                                            hits.push((o, vv));
+                                        }
+                                    }
+                                    if hits.len() >= 2 && !inv_only {
+                                        let n_hits = hits.len();
+                                        let (o, vv) = hits.remove(0);
+                                        let path = format!("{}/{}-{}-{}.json", replay_dir, property, fam.name, i);
+                                        let _ = std::fs::create_dir_all(replay_dir);
+                                        let mut js = replay_json(property, fam, i, &choices, &vv, &o);
+                                        js["note"] = json!(format!("executions of this schedule are not identical from run to run (the behaviour depends on something outside the schedule, such as memory addresses); the violation showed in {} of 6 replays", n_hits));
+                                        let _ = std::fs::write(&path, serde_json::to_string_pretty(&js).unwrap());
+                                        stop.store(true, Ordering::Relaxed);
+                                        viols.lock().unwrap().push(Violation {
+                                            family: fam.name.to_string(), scenario: i, label: sc.label.clone(), choices: choices.clone(),
+                                            tag: vv[0].tag.to_string(),
+                                            msg: format!("{} [seen in {} of 6 replays of this schedule; runs are not identical]", vv[0].msg, n_hits),
+                                            replay: path,
+                                        });
+                                    } else {
                                     *mach.lock().unwrap() = Some(format!(
                                         "family {} scenario {}: violation {:?} (choices {:?}) is not reproducible, neither alone nor after the preceding execution",
                                         fam.name, i, v[0].msg, choices
                                     ));
                                     stop.store(true, Ordering::Relaxed);
+                                    }
                                 }
                             }
                         } else {
@@ -484,6 +517,7 @@ pub fn run_families(property: &str, tier: &str, fams: Vec<Family>, budget_s: f64
             "scenarios_skipped_budget": st.scenarios_skipped,
             "nontrivial_scenarios": st.nontrivial_scenarios,
             "executions": st.executions,
+            "replay_retries": st.replay_retries,
             "distinct_outcomes": st.distinct,
             "max_choice_points": st.max_choice_points,
             "deviation_bound": fam.dev_bound,
